@@ -929,3 +929,25 @@ def rule_xread_count(ctx, R):
                 R.finding(fn, "stream-loop:left-before-the-last-stream",
                           "%s can leave the loop over the requested streams (line %d) before the list is exhausted and still answer successfully: streams listed later are missing from the reply although they hold newer entries" % (fn.split("::")[-1], b.bb_line(early[0][0])), b.loc(early[0][0]))
     R.floor("multi_stream_read_loops", n)
+
+
+# ---- R-ST-FIELDS ----------------------------------------------------------------------------------
+def rule_st_fields(ctx, R):
+    """entries keep their field-value pairs: the payload of a stream entry is held in a container
+    that keeps every pair, in the order given -- a sequence of pairs.  A map keyed by the field
+    name drops a pair when a name is repeated (`XADD s * f 1 f 2`) and forgets the order."""
+    adt = ctx.prog.adts.get("storage::stream::StreamEntry")
+    if not adt or not adt.get("variants"):
+        R.broken.append("type storage::stream::StreamEntry not found in the facts"); return
+    n = 0
+    anchor = ctx.prog.bodies.get("storage::stream::StreamData::add_auto") or ctx.prog.need("storage::stream::Stream::add_auto")
+    for name, ty in adt["variants"][0]["f"]:
+        if "Vec<u8>" not in ty:
+            continue
+        n += 1
+        keyed = bool(re.search(r"(HashMap|BTreeMap|HashSet|BTreeSet|IndexMap)<", ty))
+        R.inst("storage::stream::StreamEntry", "entry-payload:" + name, {"field": name, "type": ty, "keeps_every_pair_in_order": not keyed})
+        if keyed:
+            R.finding("storage::stream::StreamEntry", "entry-payload:%s:keyed-by-field-name" % name,
+                      "a stream entry holds its field-value pairs in `%s`: a repeated field name overwrites the earlier pair and the order of the pairs is lost (XADD s 1-0 f 1 f 2 g 3; XRANGE s - + answers two pairs in arbitrary order)" % ty, anchor.loc())
+    R.floor("entry_payload_fields", n)
